@@ -52,6 +52,9 @@ pub enum Fault {
     WatchdogExpiry,
     /// reply later than the slot time
     LateReply,
+    /// not a fault of the slave: the harness calls request_diagnostics() on the master while this
+    /// transaction's reply is in flight
+    UserDiagRequest,
 }
 
 pub struct SlaveCore {
